@@ -39,6 +39,7 @@ type L2Case struct {
 	Tags   []string `json:"tags,omitempty"`
 	Repeat int      `json:"repeat,omitempty"` // C14: generate this many more times with fresh Mockers
 	Fmts   bool     `json:"fmts,omitempty"`   // C16: also run the other formatters and compare
+	Formatter *string `json:"formatter,omitempty"` // default "noop"; the CLI stage asks for what the flags select
 }
 
 // L2Obs is what the implementation did on a case, plus the model input dumped from
@@ -283,7 +284,11 @@ func runL2Case(c L2Case, dumpOnly bool) (o L2Obs) {
 				o.Text = fmt.Sprint(r)
 			}
 		}()
-		m, err := moq.New(moq.Config{SrcDir: ".", PkgName: c.Pkg, Formatter: "noop",
+		formatter := "noop"
+		if c.Formatter != nil {
+			formatter = *c.Formatter
+		}
+		m, err := moq.New(moq.Config{SrcDir: ".", PkgName: c.Pkg, Formatter: formatter,
 			StubImpl: c.Stub, SkipEnsure: c.Skip, WithResets: c.Resets})
 		if err != nil {
 			o.Kind, o.Text = "err", "new: "+err.Error()
